@@ -68,6 +68,8 @@ def action():
                                                             # only nonexistent CPUs, even modulo 2**32
                                                             [2**32], [2**32 + 3], [2**31], [2**40 + 1],
                                                             [2**32, 2**32 + 1]])),
+        # CPUs that exist but lie in a hole of the simulated cpusets "0-2,5-6" / "1,3"
+        st.tuples(st.just("cpu_affinity"), st.sampled_from([[3], [4], [3, 4], [4, 3], [0], [2], [0, 2], [7]])),
         st.tuples(st.just("rlimit"), st.sampled_from(RLIMITS),
                   st.sampled_from([(0, 0), (1, 1), (0, 1), (1, 2), (1024, 4096), (5, INF),
                                    (INF, INF), (10, 10), "cur", (1,), (1, 2, 3), (), [7, 8]])),
@@ -492,7 +494,7 @@ PROP = Property(
           "request; distinct = (mode, API, value)."),
     strategy=strategy,
     run_case=run_case,
-    budgets={"quick": 1600, "thorough": 16000},
+    budgets={"quick": 3200, "thorough": 16000},
     assumptions=[
         "the sandbox runs as root (negative nice, RT I/O class allowed)",
         "soft > hard and RLIMIT_NOFILE above fs.nr_open are the kernel's own "
